@@ -61,7 +61,7 @@ theorem RInv.after_round {s : Sys} (h : RInv nat blocked SLA SLB SR liteA liteB 
     rcases r.wk.linked _ hj1 hseen4 with g | hp0
     · exact g
     · have hs0 := NomSeen.adv_back h.ok r.tH r.ok1 r.eff r.tk hp0
-      have hdp := (h.linked hs0).adv h.ok r.eff r.yo
+      have hdp := (h.linked hs0).adv h.ok r.eff (young_lt r.yo)
       have hs3 : Sel (wave (wave (s.advance T).1)) (!c) := wave_dp r.ok1 hdp
       have : Sel (round c s) (!c) := by
         unfold IceProofs.C01Live.round; rw [r.rt]
@@ -103,7 +103,7 @@ theorem round_final {s : Sys} (h : RInv nat blocked SLA SLB SR liteA liteB T0 H 
   obtain ⟨T, r⟩ := round_start h hH
   by_cases hsel : Sel s c
   · refine ⟨r.wk.sel c (hsel.adv r.eff), ?_⟩
-    have hdp := (h.linked (Or.inl hsel)).adv h.ok r.eff r.yo
+    have hdp := (h.linked (Or.inl hsel)).adv h.ok r.eff (young_lt r.yo)
     have hs3 : Sel (wave (wave (s.advance T).1)) (!c) := wave_dp r.ok1 hdp
     unfold IceProofs.C01Live.round; rw [r.rt]
     exact hs3.flushN r.ok1.wave.wave _
